@@ -26,6 +26,9 @@ CHECKS = {
  'C14': dict(technique=TECH,
    text='MC_VarDecl: add_var/undeclare_vars/var/apply/drop/gc/swap interleavings over 3 names under TLC (AddVarC, UndeclareC, HeldSame, Canonical); graph replays and seeded histories over 6 names on the real code (idempotent / conflicting / used-level declarations, undeclare of no / unused / used / unknown names) with the four order views read after every step; TLC checks the views against the recorded order, exact removed sets, refusals exactly when required, held functions unchanged by name.',
    note=TRUST + 'Levels passed to add_var are never gaps (precondition).', design='7 (C14)'),
+ 'C09': dict(technique=TECH,
+   text='DynReorder.tla models the _try_to_reorder protocol (exceptions as threaded flags, nesting flag, retry with requests off, re-arm); TLC checks for every existing trigger position that decorated entries return the same function, keep held references, stay enabled and never leak the signal (and exhibits the failures of undecorated entries). On the real code every listed operation of dd.autoref and dd.bdd is run with the request firing at EVERY position k=1..N (N counted by a dry run) on identically rebuilt managers, plus natural triggering at lowered thresholds; TLC judges each run against the untriggered reference run.',
+   note=TRUST + 'The harness replaces dd.bdd._request_reordering in its own process by a counting/raising wrapper (no source hook). Open known findings: find_or_add, load, image, preimage, module-level rename run outside the retry wrapper.', design='7 (C09), 9'),
  'C10': dict(technique=TECH,
    text='TLC checks support/is_essential/count/pick/pick_iter of the real code for all functions of 3 variables (all orders, every care set incl. unused declared variables, every n) against BoolFun (Support, CountF, cube cover/disjointness); MC_Sat checks the transcribed _sat_len/count/support recursions against BoolFun on all 256 functions x 6 orders.',
    note=TRUST + 'Exhaustive to 3 variables, 4 sampled (thorough: all orders).', design='7 (C10)'),
